@@ -75,21 +75,21 @@ theorem memoryP_none_head (g : Txt) (c : Nat) (t : Txt) (hg : Blank g) (hc : isW
     memoryP (g ++ c :: t) = none := by
   simp [memoryP, lit_head_ne g c 91 t [] hg hc h]
 
-theorem lit_none_of_follow (rest : Txt) (h : Follow rest) (a : Nat) (l : Txt) (ha : a ≠ 44 ∧ a ≠ 47) :
+theorem lit_none_of_follow (rest : Txt) (h : Follow rest) (a : Nat) (l : Txt) (ha : a ≠ 44 ∧ a ≠ 47 ∧ a ≠ 93) :
     lit true (a :: l) rest = none := by
   simp only [lit, sk_true]
   cases hs : skipWs rest with
   | nil => rfl
   | cons c r =>
     have := h.next c r hs
-    have hne : c ≠ a := by rcases this with rfl | rfl <;> omega
+    have hne : c ≠ a := by rcases this with rfl | rfl | rfl <;> omega
     simp [dropPrefix, hne]
 
 theorem alpha_idFirst (c : Nat) (h : isAlphaC c = true) : isIdFirstC c = true := by
   simp [isIdFirstC, h]
 
-theorem identifier_word (g : Txt) (c : Nat) (w rest : Txt) (hg : Blank g) (hc : isAlphaC c = true)
-    (hw : ∀ d ∈ w, isIdRestC d = true) (hf : Follow rest) :
+theorem identifier_word' (g : Txt) (c : Nat) (w rest : Txt) (hg : Blank g) (hc : isAlphaC c = true)
+    (hw : ∀ d ∈ w, isIdRestC d = true) (hstop : StopsAt isIdRestC rest) (hplus : lit true [43] rest = none) :
     identifier (g ++ c :: (w ++ rest)) = some (⟨none, c :: w, none⟩, skipWs rest) := by
   have hws := alpha_not_ws c hc
   have hc58 : c ≠ 58 := by simp only [isAlphaC] at hc; simp at hc; omega
@@ -98,12 +98,17 @@ theorem identifier_word (g : Txt) (c : Nat) (w rest : Txt) (hg : Blank g) (hc : 
     split
     · rename_i r h; simp at h; omega
     · rfl
-  have hstop : StopsAt isIdRestC rest := hf.stops isIdRestC rest (by decide)
   have hname : identName (c :: (w ++ rest)) = some (c :: w, rest) := by
     simp [identName, skipWs_cons c _ hws, alpha_idFirst c hc, spanP_append isIdRestC w rest hw hstop]
   have hoff : identOffset rest = none := by
-    simp [identOffset, lit_none_of_follow rest hf 43 [] (by omega)]
+    simp [identOffset, hplus]
   simp [identifier, optP, hrel, sk_true, skipWs_blank_append g _ hg, skipWs_cons c _ hws, hname, hoff]
+
+theorem identifier_word (g : Txt) (c : Nat) (w rest : Txt) (hg : Blank g) (hc : isAlphaC c = true)
+    (hw : ∀ d ∈ w, isIdRestC d = true) (hf : Follow rest) :
+    identifier (g ++ c :: (w ++ rest)) = some (⟨none, c :: w, none⟩, skipWs rest) :=
+  identifier_word' g c w rest hg hc hw (hf.stops isIdRestC rest (by decide))
+    (lit_none_of_follow rest hf 43 [] (by omega))
 
 theorem digit_idRest (d : Nat) (h : isDigitC d = true) : isIdRestC d = true := by
   simp [isIdRestC, isAlnumC, h]
@@ -112,8 +117,8 @@ theorem alpha_not_digit (c : Nat) (h : isAlphaC c = true) : isDigitC c = false :
   simp only [isAlphaC, isDigitC] at *; simp at *; omega
 
 /-- an immediate that starts with a letter is an identifier -/
-theorem immediate_word (g : Txt) (c : Nat) (w rest : Txt) (hg : Blank g) (hc : isAlphaC c = true)
-    (hw : ∀ d ∈ w, isIdRestC d = true) (hf : Follow rest) :
+theorem immediate_word' (g : Txt) (c : Nat) (w rest : Txt) (hg : Blank g) (hc : isAlphaC c = true)
+    (hw : ∀ d ∈ w, isIdRestC d = true) (hstop : StopsAt isIdRestC rest) (hplus : lit true [43] rest = none) :
     immediate (g ++ c :: (w ++ rest)) = some (.ident ⟨none, c :: w, none⟩, skipWs rest) := by
   have hws := alpha_not_ws c hc
   have hb : 65 ≤ c := by simp only [isAlphaC] at hc; simp at hc; omega
@@ -143,9 +148,15 @@ theorem immediate_word (g : Txt) (c : Nat) (w rest : Txt) (hg : Blank g) (hc : i
     split
     · rename_i r h; simp at h; omega
     · simp [mantissaNS, wordNS_none isDigitC _ hstopd]
-  have hid := identifier_word [] c w rest blank_nil hc hw hf
+  have hid := identifier_word' [] c w rest blank_nil hc hw hstop hplus
   simp only [List.nil_append] at hid
   simp [immediate, h1, hhex, hdec, floatP, doubleP, hmant, hid]
+
+theorem immediate_word (g : Txt) (c : Nat) (w rest : Txt) (hg : Blank g) (hc : isAlphaC c = true)
+    (hw : ∀ d ∈ w, isIdRestC d = true) (hf : Follow rest) :
+    immediate (g ++ c :: (w ++ rest)) = some (.ident ⟨none, c :: w, none⟩, skipWs rest) :=
+  immediate_word' g c w rest hg hc hw (hf.stops isIdRestC rest (by decide))
+    (lit_none_of_follow rest hf 43 [] (by omega))
 
 theorem lit_skipWs (l s : Txt) : lit true l (skipWs s) = lit true l s := by
   simp [lit, sk_true, skipWs_idem]
